@@ -222,7 +222,16 @@ var mutationKinds = []string{
 func mutate(t *rapid.T, root *xt.Node) string {
 	var refs []nodeRef
 	collect(root, nil, 0, 0, &refs)
-	r := refs[rapid.IntRange(0, len(refs)-1).Draw(t, "mut-node")]
+	// the stanza itself and its payload are where handlers look first: prefer them
+	var r nodeRef
+	switch k := rapid.IntRange(0, 9).Draw(t, "mut-where"); {
+	case k <= 2:
+		r = refs[0]
+	case k <= 4 && len(refs) > 1:
+		r = refs[1]
+	default:
+		r = refs[rapid.IntRange(0, len(refs)-1).Draw(t, "mut-node")]
+	}
 	n := r.n
 	kind := rapid.SampledFrom(mutationKinds).Draw(t, "mut-kind")
 	switch kind {
